@@ -38,6 +38,39 @@ fn pairs<E: Elem + Clone>(out: &mut Out, bound: usize) {
     }
 }
 
+/// elements that are themselves matrices (heap-owning, with a storage order of their own): the copied
+/// elements must be clones of the source's elements — logically equal, same order — and the others untouched
+fn nested(out: &mut Out) {
+    use matreex::{Matrix, Order};
+    let inner = |o: Order, nr: usize, nc: usize, base: u32| mk(o, nr, nc, |k| base + k as u32);
+    for dorder in ORDERS {
+        for sorder in ORDERS {
+            for (dio, sio) in [(Order::RowMajor, Order::ColMajor), (Order::ColMajor, Order::RowMajor), (Order::RowMajor, Order::RowMajor)] {
+                out.case(&format!("overwrite nested outer={}{} inner={}{}", ord_ch(dorder), ord_ch(sorder), ord_ch(dio), ord_ch(sio)));
+                out.nontrivial();
+                let op = format!("oracle overwrite-nested {} {} {} {}", ord_ch(dorder), ord_ch(sorder), ord_ch(dio), ord_ch(sio));
+                out.announce(&op);
+                let mut dest: Matrix<Matrix<u32>> = mk(dorder, 3, 2, |k| inner(dio, 1 + k % 2, 2, 100 * k as u32));
+                let src: Matrix<Matrix<u32>> = mk(sorder, 2, 3, |k| inner(sio, 2, 3, 1000 + 10 * k as u32));
+                let before = dest.clone();
+                let res = catch(|| { dest.overwrite(&src); });
+                if res.is_none() { out.oracle_fail(&format!("{op}: panicked")); }
+                for r in 0..3 { for c in 0..2 {
+                    if r < 2 && c < 2 {
+                        if dest[(r, c)] != src[(r, c)] || dest[(r, c)].order() != src[(r, c)].order() || dest[(r, c)].iter_elements().ne(src[(r, c)].iter_elements()) {
+                            out.oracle_fail(&format!("{op}: element ({r}, {c}) of the destination is not a clone of the source's element: {:?} ({:?}) vs {:?} ({:?})", dest[(r, c)], dest[(r, c)].order(), src[(r, c)], src[(r, c)].order()));
+                        }
+                    } else if dest[(r, c)] != before[(r, c)] || dest[(r, c)].order() != before[(r, c)].order() {
+                        out.oracle_fail(&format!("{op}: element ({r}, {c}) outside the overlap changed"));
+                    }
+                } }
+                if (dest.nrows(), dest.ncols(), dest.order()) != (3, 2, dorder) { out.oracle_fail(&format!("{op}: destination shape / order changed")); }
+                out.observe("ok");
+            }
+        }
+    }
+}
+
 pub fn run_c14(out: &mut Out, _rng: &mut Rng, tier: Tier) -> String {
     ledger_reset();
     let bound = if tier == Tier::Quick { 3 } else { 4 };
@@ -59,6 +92,7 @@ pub fn run_c14(out: &mut Out, _rng: &mut Rng, tier: Tier) -> String {
             }
         }
     }
+    nested(out);
     out.led_mode = true;
     pairs::<Zd>(out, 2);
     out.led_mode = false;
